@@ -127,7 +127,13 @@ func main() {
 	case "verify", "dump", "loops":
 		cmdVerify(os.Args[1], os.Args[2:])
 	case "check":
-		os.Exit(cmdCheck(os.Args[2:]))
+		code := cmdCheck(os.Args[2:])
+		cleanupScratch()
+		os.Exit(code)
+	case "replay":
+		code := cmdReplay(os.Args[2:])
+		cleanupScratch()
+		os.Exit(code)
 	default:
 		fmt.Fprintln(os.Stderr, "unknown command", os.Args[1])
 		os.Exit(2)
@@ -236,7 +242,3 @@ func indent(s string) string {
 	return "      " + strings.ReplaceAll(strings.TrimSpace(s), "\n", "\n      ")
 }
 
-func cmdCheck(args []string) int {
-	fmt.Fprintln(os.Stderr, "check: not implemented yet")
-	return 2
-}
